@@ -33,6 +33,9 @@ RE_LIB = {
     "urljoin": {"params": ["base", "url"], "types": {"base": "Str", "url": "Str"}, "returns": "Str", "raises": {"ValueError": None}, "ensures": []},
     "unquote": {"params": ["string"], "types": {"string": "Str"}, "returns": "Str", "ensures": []},
     "ensure_protocol": {"params": ["url", "protocol"], "types": {"url": "Str", "protocol": "Str"}, "defaults": {"protocol": "'http'"}, "returns": "Str", "ensures": []},
+    # ural.get_hostname.get_hostname: total (verified in contracts/stems.py::HOSTNAME), None or a non-empty hostname
+    "get_hostname": {"params": ["url"], "types": {"url": "Obj"}, "returns": "Opt[Str]",
+                     "ensures": ["implies(result is not None, len(some(result)) > 0)"]},
     "pathsplit": {"params": ["urlpath"], "types": {"urlpath": "Str"}, "returns": "Seq[Str]", "ensures": ["result == uf('pathsplit', 'Seq[Str]', urlpath)",
                               # proved for the real pathsplit in contracts/utils.py
                               "(len(result) == 0) == (urlpath.strip() == '' or urlpath.strip() == '/')"]},
